@@ -15,7 +15,7 @@ _asbuilt = ''.join(f"**{k}.** {v['text']}\n\n*Trusted / outside the model:* {v['
 blocks = {
  'ASBUILT': '## 4b. What each check proves and ties, as built (generated from tools/manifest_checks.json = MANIFEST level texts)\n\n'
             'Section 4 above is the round-0 plan; this is what exists. Theorem names are listed in section 12.\n\n' + _asbuilt,
- 'SEEDS': '## 10b. Seeded changes of rounds 4 to 8 (generated from seeded/*/meta.json)\n\n'
+ 'SEEDS': '## 10b. Seeded changes of rounds 4 to 9 (generated from seeded/*/meta.json)\n\n'
           'Rounds 4 and 5 asked fresh sub-agents for two more changes per property each, telling them which mechanisms earlier '
           'seeds had used and which weaknesses of the tree were already known, so that they would look elsewhere. "first run" is '
           'what the check as it stood reported (CAUGHT = VIOLATION with a concrete replay; CAUGHT-NOINPUT = only '
